@@ -266,19 +266,12 @@ def build_collisions(fn, scratch, filename, k):
     w = scratch.fresh()
     made = []
     try:
-        try:
-            first = fn(filename, unique=False)
-        except Exception:  # noqa
-            return made
-        cand = first
+        cand = canon_clean(fn, filename, False, "_")[1]
         for _ in range(k):
-            if has_surrogate(cand) or not touch(cand):
+            if cand is None or has_surrogate(cand) or not touch(cand):
                 break
             made.append(cand)
-            try:
-                cand = fn(filename, unique=True)
-            except Exception:  # noqa
-                break
+            cand = canon_clean(fn, filename, True, "_", limit=5.0)[1]       # None when it raises or hangs
         return made
     finally:
         scratch.done(w)
@@ -403,7 +396,11 @@ def run(ck: Check):
                 rep = rng.choice(["-", "__", "x", "é", "_.", "", " ", "a/b", "_\n", "ab", "\x00", "__" + "y" * rng.randrange(0, 4)])
                 dist["custom_replace"] += 1
             one({"name": cps(name), "unique": False, "replace": cps(rep), "files": []})
+        hangs = 0
         for i in range(n_uniq):
+            if hangs >= 3:                           # every further case would cost another 10 s
+                ck.notes.append("uniqueness stream stopped after 3 calls that did not return")
+                break
             d = rng.choice(DIRS)
             name = (d + "/" if d else "") + rand_basename(rng)
             if has_surrogate(name):
@@ -414,7 +411,8 @@ def run(ck: Check):
             if rng.randrange(4) == 0:                # files that look like candidates but are not in the chain
                 b = os.path.basename(made[0]) if made else "x"
                 extra = [os.path.join(os.path.split(name)[0], b[:rng.randrange(0, 6)] + "_%d" % rng.randrange(0, 3))]
-            one({"name": cps(name), "unique": True, "replace": cps("_"), "files": [cps(m) for m in made + extra]})
+            reply, _ = one({"name": cps(name), "unique": True, "replace": cps("_"), "files": [cps(m) for m in made + extra]})
+            hangs += reply == "hang"
         for i in range(n_surr):                      # oracle only: Lean's Char has no lone surrogates
             name = rng.choice(["", "d/"]) + rand_basename(rng, surrogates=True) + rng.choice(["", "\udc80", "\ud800."])
             if has_surrogate(name):
